@@ -26,9 +26,9 @@ META = dict(
     explanation="CrossHair: every logging configuration accepted by OutputsSettings lets FitOutputManager.iteration return normally at every iteration; _initialize_seed "
     "seeds random, numpy and torch with the given seed and run() does it before _run. Symbolic tensors: State.save / _get_value_as_dict_of_lists leave every cached "
     "value, every independent value and the pending fork untouched; the sum of individual regularity terms is bit-identical (float32) under every iteration order of "
-    "the underlying Python set.",
+    "the underlying Python set. Two OBSERVED (not symbolic) obligations on real tiny runs: global RNG states are bit-identical around every logging call, and a seeded 4-iteration fit + 12-iteration personalization is bit-identical after four enumerated process histories (nothing, default dtype switched to float64, generators consumed and re-seeded, an earlier seeded run).",
     bounds="periodicities in {None, -1..3}, iteration <= 6, path given or not; seeds <= 1e5; 3 individual variables (xi, tau, sources), 2 individuals",
-    outside="bit-identity of whole seeded runs across repetitions / prior RNG use / earlier fits: whole-program property of global RNG state and float kernels - not decidable by this technique",
+    outside="bit-identity of whole seeded runs for every history / configuration: whole-program property of global RNG state and float kernels - not decidable by this technique; only the enumerated histories above are observed",
     assumptions=["filesystem effects of OutputsSettings and file writing of State.save are stubbed", "print / save / plot actions of the output manager are recording stubs"],
 )
 
